@@ -468,7 +468,7 @@ def c10(ctx):
         ks = [k for k in v['kinds'] if k in ('mode-mismatch', 'compile-panic')]
         if ks:
             acc.failures.append({'kinds': ks, 'chain': brecs[v['idx'] - 1]['big'], 'mode': brecs[v['idx'] - 1]['mode'], 'stage': 'c10big'})
-    t_sem(ctx, acc, 'c10chain', ['--count', str(pick(ctx, 4, 40)), '--seed', str(ctx.seed), '--profile', 'chain', '--size', '300'], ROUTE_KINDS, consts='CONSTANT MaxFiles = %d\nCONSTANT Static = FALSE\n' % pick(ctx, 3, 8))
+    t_sem(ctx, acc, 'c10chain', ['--count', str(pick(ctx, 4, 40)), '--seed', str(ctx.seed), '--profile', 'chain', '--size', '300'], ROUTE_KINDS, consts='CONSTANT MaxFiles = %d\nCONSTANT Static = FALSE\n' % pick(ctx, 2, 8))
     return tv_result(acc, 'all multisets of up to %d actions from 12 action kinds (stdout/file x newline/NUL/format, file names from a pool of 3, print-file-fid, quit) as AND chain, OR chain and mixed; seeded random operator trees rich in actions; deep trees (40..240 levels) whose only frame-needing action sits at the bottom or in the first rule; every string a change introduced into the source and the special names of a Unix system as argument of every string-carrying test and action; formats of 20..129 elements; chains with up to 300 resources (destinations and matchers); checked: framed iff NeedsFramed, plain => no table, injective table equal to the required targets, stream decodes into frames whose routed records equal FindSem outputs' % pick(ctx, 2, 3), [])
 
 
@@ -687,7 +687,7 @@ def c11(ctx):
         raise ctx.t.ToolError('tree generation failed: ' + rp.stderr[-400:])
     sem_validate(ctx, acc, 'c11chains', trace, SCOPE_KINDS, consts='CONSTANT MaxFiles = 14\nCONSTANT Static = FALSE\n', timeout=6000)
     t_sem(ctx, acc, 'c11long', ['--count', str(pick(ctx, 4, 60)), '--seed', str(ctx.seed), '--profile', 'chain', '--size', '300'], SCOPE_KINDS,
-          consts='CONSTANT MaxFiles = %d\nCONSTANT Static = FALSE\n' % pick(ctx, 3, 6))
+          consts='CONSTANT MaxFiles = %d\nCONSTANT Static = FALSE\n' % pick(ctx, 2, 6))
     t_sem(ctx, acc, 'c11affix', ['--profile', 'affix', '--no-warmup'], SCOPE_KINDS, consts='CONSTANT MaxFiles = 4\nCONSTANT Static = FALSE\n')
     t_sem(ctx, acc, 'c11short', ['--count', str(pick(ctx, 150, 2000)), '--seed', str(ctx.seed + 1), '--profile', 'chain', '--size', '10'], SCOPE_KINDS,
           consts='CONSTANT MaxFiles = 40\nCONSTANT Static = FALSE\n')
